@@ -79,7 +79,7 @@ pub fn read_back(bytes: &[u8]) -> Result<ReadBack, String> {
 
 /// A value that validation accepts but the encoder refuses (returns Err) — decided
 /// by asking the library's own validate() and a dry run of the unvalidated encoder.
-fn accepted_but_refused(sub: &Subject, canonical: &Value, c: &mut Choices) -> Option<Value> {
+pub fn accepted_but_refused(sub: &Subject, canonical: &Value, c: &mut Choices) -> Option<Value> {
     let SType::Record(_, fields) = &deref(&sub.node, &sub.env).ty else {
         return None;
     };
@@ -124,7 +124,7 @@ fn accepted_but_refused(sub: &Subject, canonical: &Value, c: &mut Choices) -> Op
     }
 }
 
-fn rejected_value(sub: &Subject, c: &mut Choices) -> Option<Value> {
+pub fn rejected_value(sub: &Subject, c: &mut Choices) -> Option<Value> {
     let cands = [
         Value::Record(vec![("__nope__".to_string(), Value::Boolean(true))]),
         Value::Fixed(3, vec![1, 2, 3]),
